@@ -240,8 +240,11 @@ class Ctx:
 
 def load_findings(prop):
     pats = []
-    if os.path.exists(FINDINGS_FILE):
-        for line in open(FINDINGS_FILE):
+    import glob
+    for fn in [FINDINGS_FILE] + sorted(glob.glob(os.path.join(VERIF, "findings.d", "*.txt"))):
+        if not os.path.exists(fn):
+            continue
+        for line in open(fn):
             line = line.strip()
             m = re.match(r"finding:\s+property=(\S+)\s+sig=(\S+)", line)
             if m and m.group(1) == prop:
